@@ -78,12 +78,22 @@ type faultWriter struct {
 	k    int // -1: never fails
 	mode int // 0: partial count and error; 1: the failing call reports the whole slice as taken, and the error; 2: nothing taken, and the error
 	dead bool
-	buf  bytes.Buffer
+	// mode 3: one Write call fails (the one that would cross k), every later one succeeds
+	failedOnce bool
+	buf        bytes.Buffer
 }
 
 func (w *faultWriter) Write(p []byte) (int, error) {
 	if w.dead {
 		return 0, errInjected
+	}
+	if w.k >= 0 && w.buf.Len()+len(p) > w.k && w.mode == 3 && !w.failedOnce {
+		// a transient fault: this call fails (nothing taken), the following ones succeed
+		w.failedOnce = true
+		return 0, errInjected
+	}
+	if w.mode == 3 && w.failedOnce {
+		return w.buf.Write(p)
 	}
 	if w.k >= 0 && w.buf.Len()+len(p) > w.k && w.mode != 0 {
 		w.dead = true
@@ -358,7 +368,7 @@ func TestC18(t *testing.T) {
 						})
 						ev.Sample("write-"+wf, map[string]any{"source_format": src, "source_document": clip(string(doc), 300), "writer": wf, "fault_offsets": fmt.Sprintf("0..%d", size)})
 						for k := 0; k <= size; k++ {
-							for mode := 0; mode < 3; mode++ {
+							for mode := 0; mode < 4; mode++ {
 								c := c18Case{Format: src, Doc: doc, Writer: wf, FaultAt: k, Mode: mode}
 								if wf == "ttml" {
 									// the offsets of the default rendering are swept under each per-call option in turn
@@ -426,6 +436,35 @@ func TestC18(t *testing.T) {
 			if _, err := astisub.OpenFile(filepath.Join(dir, "missing."+ext)); err == nil {
 				writeReplay("C18", "c18", c18Case{Format: ext}, "OpenFile of a missing file returned nil error")
 				t.Fatalf("OpenFile of a missing .%s file returned nil error", ext)
+			}
+		}
+		// what the format reader reports comes back through the opener, under every extension: a stream failing at the
+		// first byte (a directory: every read fails with EISDIR), a line beyond what the reader can buffer
+		longLine := strings.Repeat("x", 1<<17)
+		longDocs := map[string]string{
+			"srt": "1\n00:00:01,000 --> 00:00:02,000\na\n\n2\n00:00:03,000 --> 00:00:04,000\n" + longLine + "\n\n3\n00:00:05,000 --> 00:00:06,000\nc\n",
+			"vtt": "WEBVTT\n\n00:00:01.000 --> 00:00:02.000\na\n\n00:00:03.000 --> 00:00:04.000\n" + longLine + "\n\n00:00:05.000 --> 00:00:06.000\nc\n",
+			"ssa": "[Script Info]\nTitle: t\n\n[Events]\nFormat: Marked, Start, End, Style, Name, MarginL, MarginR, MarginV, Effect, Text\nDialogue: Marked=0,0:00:01.00,0:00:02.00,,,0,0,0,,a\nDialogue: Marked=0,0:00:03.00,0:00:04.00,,,0,0,0,," + longLine + "\nDialogue: Marked=0,0:00:05.00,0:00:06.00,,,0,0,0,,c\n",
+		}
+		longDocs["ass"] = longDocs["ssa"]
+		for _, ext := range []string{"srt", "ssa", "ass", "stl", "ttml", "vtt", "ts", "SRT", "ASS", "Vtt"} {
+			d := filepath.Join(dir, "a-directory."+ext)
+			if os.Mkdir(d, 0o755) == nil {
+				ev.CaseH(true, strHash("opendir"+ext), "opener-on-a-stream-failing-at-once")
+				if _, err := astisub.OpenFile(d); err == nil {
+					writeReplay("C18", "c18", c18Case{Format: ext}, "OpenFile of a directory returned nil error")
+					t.Fatalf("OpenFile of a directory named *.%s (every read fails) returned nil error", ext)
+				}
+			}
+			if doc, ok := longDocs[strings.ToLower(ext)]; ok {
+				p := filepath.Join(dir, "long-line."+ext)
+				if os.WriteFile(p, []byte(doc), 0o644) == nil {
+					ev.CaseH(true, strHash("openlong"+ext), "opener-on-an-over-long-line")
+					if got, err := astisub.OpenFile(p); err == nil {
+						writeReplay("C18", "c18", c18Case{Format: ext}, "OpenFile of a file with an over-long line returned nil error")
+						t.Fatalf("OpenFile of a .%s file with a line of %d bytes returned nil error and %d cues of 3", ext, len(longLine), len(got.Items))
+					}
+				}
 			}
 		}
 		s := astisub.NewSubtitles()
@@ -533,7 +572,7 @@ func TestC18(t *testing.T) {
 			return
 		}
 		if rapid.IntRange(0, 2).Draw(rt, "dir") == 0 && format != "ts" {
-			c := c18Case{Format: format, Doc: doc, Writer: rapid.SampledFrom(writerFormats).Draw(rt, "writer"), FaultAt: rapid.IntRange(0, 6000).Draw(rt, "k"), Mode: rapid.IntRange(0, 2).Draw(rt, "wmode")}
+			c := c18Case{Format: format, Doc: doc, Writer: rapid.SampledFrom(writerFormats).Draw(rt, "writer"), FaultAt: rapid.IntRange(0, 6000).Draw(rt, "k"), Mode: rapid.IntRange(0, 3).Draw(rt, "wmode")}
 			if c.Writer == "ttml" {
 				c.Indent = rapid.SampledFrom([]string{"", "none", "tab", "two"}).Draw(rt, "indent")
 			}
